@@ -50,6 +50,7 @@ func newCache
   ensures conf_kept: result0.conf.EnableLRU == conf.EnableLRU && result0.conf.OnDelete == conf.OnDelete
 
 func (*cache).Del
+  modifies c.items, c.size, c.hit, c.miss, c.lock, allof("listItem"), allof("map[string]*item")
   requires c != nil && !locked(c.lock)
   ensures unlocked: !locked(c.lock)
   ensures removed: forall k: haskey(c.items, k) <==> (old(haskey(c.items, k)) && k != strid(key))
@@ -60,6 +61,7 @@ func (*cache).Del
      (c.size - (old(c.size) - (len(it.key) + len(it.value)))) % 18446744073709551616 == 0)
 
 func (*cache).Get
+  modifies c.items, c.size, c.hit, c.miss, c.lock, allof("listItem"), allof("map[string]*item")
   requires c != nil && !locked(c.lock)
   ensures unlocked: !locked(c.lock)
   ensures hit_value: old(haskey(c.items, strid(key))) ==> result0 == old(mapget(c.items, strid(key))).value &&
@@ -70,11 +72,13 @@ func (*cache).Get
     (forall k: (haskey(c.items, k) <==> old(haskey(c.items, k))) && mapget(c.items, k) == old(mapget(c.items, k)))
 
 func (*cache).Clear
+  modifies c.items, c.size, c.hit, c.miss, c.lock, allof("listItem"), allof("map[string]*item")
   requires c != nil && !locked(c.lock)
   ensures unlocked: !locked(c.lock)
   ensures emptied: (forall k: !haskey(c.items, k)) && c.size == 0 && c.hit == 0 && c.miss == 0 && len(c.items) == 0
 
 func (*cache).Stats
+  modifies c.items, c.size, c.hit, c.miss, c.lock, allof("listItem"), allof("map[string]*item")
   requires c != nil && !locked(c.lock)
   ensures unlocked: !locked(c.lock)
   ensures snapshot: result0.Count == len(c.items) && result0.Size == (c.size < 9223372036854775808 ? c.size : c.size - 18446744073709551616) &&
@@ -82,8 +86,11 @@ func (*cache).Stats
   ensures read_only: c.items == old(c.items) && c.size == old(c.size) && c.hit == old(c.hit) && c.miss == old(c.miss)
 
 func (*cache).Set
+  modifies c.items, c.size, c.hit, c.miss, c.lock, allof("listItem"), allof("map[string]*item")
   requires c != nil && !locked(c.lock)
   callback requires lock_released: !locked(c.lock)
+  // the entry handed to OnDelete has already disappeared from the cache
+  callback requires evicted_entry_gone: !haskey(c.items, strid(cbarg0))
   callback modifies c.items, c.size, c.hit, c.miss, allof("listItem"), allof("map[string]*item")
   callback ensures !locked(c.lock)
   ensures unlocked: !locked(c.lock)
@@ -97,11 +104,15 @@ func (*cache).Set
   ensures stored: (len(key) + len(val) <= c.conf.MaxElementSize &&
     (c.conf.EnableLRU || !(old(c.size) + len(key) + len(val) > c.conf.MaxSize || old(len(c.items)) == c.conf.MaxCount))) ==>
     haskey(c.items, strid(key)) && mapget(c.items, strid(key)).value == val && mapget(c.items, strid(key)).key == key
-  ensures size_accounting_without_eviction: len(key) + len(val) <= c.conf.MaxElementSize &&
-    !(old(c.size) + len(key) + len(val) > c.conf.MaxSize || old(len(c.items)) == c.conf.MaxCount) ==>
-    (let prev = old(haskey(c.items, strid(key))) in
-     let it = old(mapget(c.items, strid(key))) in
-     (c.size - (old(c.size) + len(key) + len(val) - (prev ? len(it.key) + len(it.value) : 0))) % 18446744073709551616 == 0)
+  ensures size_accounting_new_key: len(key) + len(val) <= c.conf.MaxElementSize &&
+    !(old(c.size) + len(key) + len(val) > c.conf.MaxSize || old(len(c.items)) == c.conf.MaxCount) &&
+    !old(haskey(c.items, strid(key))) ==>
+    (c.size - (old(c.size) + len(key) + len(val))) % 18446744073709551616 == 0
+  ensures size_accounting_replaced_key: len(key) + len(val) <= c.conf.MaxElementSize &&
+    !(old(c.size) + len(key) + len(val) > c.conf.MaxSize || old(len(c.items)) == c.conf.MaxCount) &&
+    old(haskey(c.items, strid(key))) ==>
+    (let it = old(mapget(c.items, strid(key))) in
+     (c.size - (old(c.size) + len(key) + len(val) - (len(it.key) + len(it.value)))) % 18446744073709551616 == 0)
   ensures without_lru_reports_replacement: !c.conf.EnableLRU && haskey(c.items, strid(key)) && !(len(key) + len(val) > c.conf.MaxElementSize) &&
     !(old(c.size) + len(key) + len(val) > c.conf.MaxSize || old(len(c.items)) == c.conf.MaxCount) ==> (result0 <==> old(haskey(c.items, strid(key))))
   loop 0
